@@ -174,7 +174,16 @@ func barrierRun(n int, f func(i int)) (panics []string) {
 		runtime.Gosched()
 	}
 	goFlag.Store(true)
-	wg.Wait()
+	// a caller that never returns is a hang of the code under test: give up after the patience unit
+	fin := make(chan struct{})
+	go func() { wg.Wait(); close(fin) }()
+	select {
+	case <-fin:
+	case <-time.After(patient()):
+		mu.Lock()
+		defer mu.Unlock()
+		return append([]string{"timeout: a caller behind the barrier did not return"}, panics...)
+	}
 	return
 }
 
